@@ -20,6 +20,7 @@ import (
 
 	"saomc/checks"
 	"saomc/engine"
+	"saomc/replica"
 	"saomc/world"
 )
 
@@ -44,6 +45,19 @@ func main() {
 		os.Exit(cmdExtra(os.Args[2:]))
 	case "replay":
 		os.Exit(cmdReplay(os.Args[2:]))
+	case "script":
+		// debug: print the baseline transcript of an engine-R script
+		for _, sc := range []*replica.Script{checks.ScriptStorage(false), checks.ScriptStaking(), checks.ScriptStorage(true), checks.ScriptTies()} {
+			if len(os.Args) > 2 && sc.Name == os.Args[2] {
+				tr, pos, _, ntx := replica.Run(sc, nil)
+				for _, it := range tr.Items {
+					if !strings.HasPrefix(it.What, "begin") && !strings.HasPrefix(it.What, "end+commit") || len(tr.Items) < 200 {
+						fmt.Printf("%-60s %s %s\n", it.What, it.Hash[:8], it.Note)
+					}
+				}
+				fmt.Println("positions", pos, "txs", ntx, "overlay", replica.OverlayActive)
+			}
+		}
 	case "list":
 		var ids []string
 		for id := range checks.Registry {
@@ -164,8 +178,23 @@ func loadKnown() KnownFile {
 func (k KnownFile) match(sig string) *KnownFinding {
 	for i := range k.Known {
 		p := k.Known[i].Signature
-		if p == sig || (strings.HasSuffix(p, "*") && strings.HasPrefix(sig, strings.TrimSuffix(p, "*"))) {
+		if p == sig {
 			return &k.Known[i]
+		}
+		// '*' stands for exactly one '/'-separated signature component (e.g. the operation kind)
+		if strings.Contains(p, "*") {
+			ps, ss := strings.Split(p, "/"), strings.Split(sig, "/")
+			if len(ps) == len(ss) {
+				ok := true
+				for j := range ps {
+					if ps[j] != "*" && ps[j] != ss[j] {
+						ok = false
+					}
+				}
+				if ok {
+					return &k.Known[i]
+				}
+			}
 		}
 	}
 	return nil
